@@ -510,7 +510,18 @@ class C10(TreeSpec):
     def gen(self, r, tier, i):
         k = i % 6
         if k in (0, 3):
-            return drive_engine.gen_engine_plan(r, "mixed", tier)
+            plan = drive_engine.gen_engine_plan(r, "mixed", tier, risk_p=0.25 if k == 0 else 0.6)
+            if k == 3:
+                # a name listed late is quoted today yet has missing quotes inside the look-back window of the covariance-based
+                # weighting algos (well-formed input: it is not held on those dates): the history requirement in front of them
+                # is shortened so that such names are selected while their history is still shorter than the window
+                short = r.choice([3, 4, 6])
+                for _p, s in drive_engine.trees.strategies(plan["tree"]):
+                    for a in s.get("algos", []):
+                        if a.get("a") == "SelectHasData" and (a.get("kw", {}).get("lookback") or {}).get("days") == 4000:
+                            a["kw"]["min_count"] = min(a["kw"]["min_count"], short)
+                            plan["fired"]["selected_with_history_shorter_than_window"] = 1
+            return plan
         if k == 5:
             return drive_tree.gen_ill_plan(r, self.ILL[(i // 6) % len(self.ILL)], tier)
         return drive_tree.gen_plan(r, "sizing" if k == 4 else ("fi" if k == 2 else "accounting"), tier)
@@ -1762,9 +1773,26 @@ class C19(Spec):
             if r.random() < 0.5 and s.get("how") == "list":
                 s["how"] = r.choice(["dict", "parent", "parent"]) if s["name"] != plan["tree"]["name"] else "dict"
             s["algos"] = [{"a": "Spy", "id": 900}] + [a for a in s.get("algos", []) if a.get("a") not in ("Chaos", "SelectRandomly", "WeighRandomly")]
+        # node objects reused as templates: the same Security object is handed to the constructors of several strategies of one
+        # tree (each constructor takes its own copy, lazily added or not); two sub-strategies attached with parent= both trade
+        # a name declared that way
+        subs = [c for c in plan["tree"]["children"] if c["k"] == "S"]
+        if len(subs) >= 2 and r.random() < 0.6:
+            common = plan["feed"]["tickers"][0]
+            for sub in subs[:2]:
+                if not any(c["k"] == "S" for c in sub["children"]):
+                    kid = [c for c in sub["children"] if c["k"] == "X" and c["name"] == common]
+                    if not kid:
+                        kid = [{"k": "X", "name": common, "cls": "Security", "mult": 1.0, "decl": "lazy"}]
+                        sub["children"].append(kid[0])
+                    kid[0].update(decl="lazy", mult=1.0, cls="Security")
+                    kid[0].pop("fi_flag", None)
+                    sub["how"] = "parent"
+                    sub["algos"] = [{"a": "Spy", "id": 900}, drive_engine.sched_spec(r, plan["feed"]["dates"]), {"a": "SelectAll"}, {"a": "WeighEqually"}, {"a": "Rebalance"}]
+            plan["tree"]["share_templates"] = True
+            plan.setdefault("fired", {})["security_objects_reused_as_templates"] = 1
         # a third level: a sub-strategy is pushed one level down under a new middle strategy that keeps its name (so whatever the
         # top allocates to it still applies) and passes everything on - settings pushed from the top must travel two levels
-        subs = [c for c in plan["tree"]["children"] if c["k"] == "S"]
         if subs and r.random() < 0.35:
             old = r.choice(subs)
             inner = dict(old, name="deep")
@@ -2071,9 +2099,16 @@ class C20(Spec):
         nested = fam == "hedge" and r.random() < 0.4
         body = tickers[: max(1, len(tickers) - len(measures))] if fam == "hedge" else tickers
         hedges = tickers[len(body):]
+        # the documented split set-up: the hedges live in a strategy of their own, which hedges the risk of the (separately tracked)
+        # book in addition to the hedges it already carries - on several dates, so that later runs start from earlier hedges
+        split = fam == "hedge" and not nested and len(hedges) >= 1 and ndates >= 5 and r.random() < 0.35
         if fam == "hedge":
             for t in hedges:
                 cls[t] = r.choice(["HedgeSecurity", "CouponPayingHedgeSecurity"])
+                if split:
+                    # (a fixed-income strategy holding nothing but zero-notional hedge securities has no base for its price:
+                    # the separate hedge strategy holds instruments that carry notional)
+                    cls[t] = r.choice(["CouponPayingSecurity", "FixedIncomeSecurity", "Security"])
         open_w = {}
         sel = r.sample(body, r.randint(1, len(body)))
         raw = [r.random() for _ in sel]
@@ -2087,6 +2122,11 @@ class C20(Spec):
             sub = {"k": "S", "name": "book", "cls": "FixedIncomeStrategy", "fi": True, "how": "list", "children": secs(body), "algos": [{"a": "RunDaily", "kw": {"run_on_last_date": True}}] + upd + opener}
             root["children"] = [sub] + secs(hedges)
             st = list(upd)
+        elif split:
+            sub = {"k": "S", "name": "book", "cls": "FixedIncomeStrategy", "fi": True, "how": "list", "children": secs(body), "algos": [{"a": "RunDaily", "kw": {"run_on_last_date": True}}] + upd + opener}
+            hsub = {"k": "S", "name": "hbook", "cls": "FixedIncomeStrategy", "fi": True, "how": "list", "children": secs(hedges), "algos": []}
+            root["children"] = [sub, hsub]
+            st = []
         else:
             root["children"] = secs(tickers)
             st = []
@@ -2099,7 +2139,14 @@ class C20(Spec):
             if not pseudo and len(hs) != len(measures):
                 pseudo = True
             st2 = [] if nested else [{"a": "Or", "algos": [{"a": "AlgoStack", "algos": opener}, {"a": "RunDaily"}]}]
-            st = st + st2 + upd + [{"a": "Spy", "id": 1}, {"a": "RunOnDate", "dates": sorted(r.sample(dates, r.randint(1, len(dates))))}, {"a": "SelectThese", "args": [hs], "kw": {"include_no_data": True}}, {"a": "HedgeRisks", "measures": measures, "pseudo": pseudo}] + upd + [{"a": "Spy", "id": 2}]
+            if split:
+                # (the book trades on the first date only, after the root refreshed the risks: hedge dates come later)
+                hdates = sorted(r.sample(dates[1:], r.randint(2, len(dates) - 1)))
+                hsub["algos"] = [{"a": "RunDaily", "kw": {"run_on_last_date": True}}, {"a": "RunOnDate", "dates": hdates}] + upd + [{"a": "SelectThese", "args": [hs], "kw": {"include_no_data": True}}, {"a": "HedgeRisksOf", "measures": measures, "pseudo": pseudo, "book": "book"}, {"a": "Spy", "id": 7}]
+                st = upd + [{"a": "Spy", "id": 1}]
+                fired["hedge_strategy_separate_from_book"] = 1
+            else:
+                st = st + st2 + upd + [{"a": "Spy", "id": 1}, {"a": "RunOnDate", "dates": sorted(r.sample(dates, r.randint(1, len(dates))))}, {"a": "SelectThese", "args": [hs], "kw": {"include_no_data": True}}, {"a": "HedgeRisks", "measures": measures, "pseudo": pseudo}] + upd + [{"a": "Spy", "id": 2}]
             plan_x = {"hedges": hs, "pseudo": pseudo}
         else:
             evd = sorted(r.sample(range(1, ndates), r.randint(1, min(3, ndates - 1))))
@@ -2230,7 +2277,28 @@ class C20(Spec):
         state = {"pre": None, "closed": {}, "rolled": {}}
         nested_upd = any(any(a.get("a") == "UpdateRisk" for a in c.get("algos", [])) for c in plan["tree"]["children"] if c["k"] == "S")
 
+        def judge_hedge(post, pre, t):
+            hs = plan["x"]["hedges"]
+            J = np.array([[unit(m, s, t) * plan["mult"][s] for m in measures] for s in hs])
+            scale = 1e-7 * (1 + np.abs(pre).max() + np.abs(post).max())
+            if not plan["x"]["pseudo"]:
+                if np.abs(post).max() > scale * max(1.0, np.linalg.cond(J)):
+                    sim.violation("c20_hedge", "after HedgeRisks with %d independent instruments the strategy's risk is %s (was %s)" % (len(hs), post.tolist(), pre.tolist()), {"pseudo": False})
+            else:
+                g = J.dot(post)  # normal equations of the least-squares problem
+                if np.abs(g).max() > scale * (1 + np.abs(J).max() ** 2) * 10:
+                    sim.violation("c20_hedge", "after pseudo-inverse HedgeRisks the residual risk %s is not least-squares minimal (J.r = %s)" % (post.tolist(), g.tolist()), {"pseudo": True})
+
         def hook(spy, target, t):
+            if target.root is sim.root and spy.spec["id"] == 7:
+                # the hedge strategy just hedged the book plus its own earlier hedges: the combined risk (from the positions
+                # themselves, unit x position x multiplier over the whole tree) is what must be neutral
+                fired["hedge"] = fired.get("hedge", 0) + 1
+                fired["hedge_of_separate_book"] = fired.get("hedge_of_separate_book", 0) + 1
+                post = np.array([expected_risk(sim.root, m, t) for m in measures])
+                pre = np.array([state["pre"][m] for m in measures]) if state["pre"] else post
+                judge_hedge(post, pre, t)
+                return
             if target.root is not sim.root or target is not sim.root:
                 return
             sid = spy.spec["id"]
@@ -2243,16 +2311,7 @@ class C20(Spec):
                     return
                 post = np.array([target.risk[m] for m in measures])
                 pre = np.array([state["pre"][m] for m in measures]) if state["pre"] else post
-                hs = plan["x"]["hedges"]
-                J = np.array([[unit(m, s, t) * plan["mult"][s] for m in measures] for s in hs])
-                scale = 1e-7 * (1 + np.abs(pre).max() + np.abs(post).max())
-                if not plan["x"]["pseudo"]:
-                    if np.abs(post).max() > scale * max(1.0, np.linalg.cond(J)):
-                        sim.violation("c20_hedge", "after HedgeRisks with %d independent instruments the strategy's risk is %s (was %s)" % (len(hs), post.tolist(), pre.tolist()), {"pseudo": False})
-                else:
-                    g = J.dot(post)  # normal equations of the least-squares problem
-                    if np.abs(g).max() > scale * (1 + np.abs(J).max() ** 2) * 10:
-                        sim.violation("c20_hedge", "after pseudo-inverse HedgeRisks the residual risk %s is not least-squares minimal (J.r = %s)" % (post.tolist(), g.tolist()), {"pseudo": True})
+                judge_hedge(post, pre, t)
             elif sid in (3, 4, 5, 6):
                 snaps.append((sid, t, {n.name: n.position for n in target.members if not hasattr(n, "capital")}, list(target.temp.get("selected", [])) if sid == 5 else None))
 
@@ -2587,7 +2646,7 @@ class C15(Spec):
                 ws = wvec(sub)
                 data.append([ws.get(n) for n in full])
             extra[nm] = drive_engine._frame(full, data, rows=rows)
-            lim = r.choice([0.02, 0.05, 0.2, {full[0]: 0.03}])
+            lim = r.choice([0.02, 0.05, 0.2, {full[0]: 0.03}, 0.0, {full[0]: 0.0, full[-1]: 0.1}])  # (a limit of zero: that name's weight may not move at all)
             # (a third of these tails take their targets from WeighSpecified: what LimitDeltas does to the dict it is handed must
             # not leak into the specification of the next date)
             src_w = {"a": "WeighTarget", "args": [nm]} if r.random() < 0.67 else {"a": "Wrap", "inner": {"a": "WeighSpecified", "weights": tailw}}
